@@ -176,6 +176,24 @@ def bare_check(b):
     c.fill.numpy(arr.copy())
     if c.toJson() != h.toJson():
         return "clone and original diverge under identical vectorised fills with a bare array (%s over %s)" % (sh, b["form"])
+    # the same code path on both sides: also bit for bit on data that is not exactly representable (values within rounding
+    # distance of non-dyadic bin edges, fractional weights)
+    import random
+
+    rng = random.Random(int(sum(abs(x) for x in b["post"]) * 8) + len(b["pre"]))
+    n = rng.randint(3, 12)
+    for width, hist in ((1.1, gen.hg.Bin(5, 0.0, 1.1, q())), (0.7, gen.hg.Bin(7, -0.7, 0.7, q(), gen.hg.Sum(q()))),
+                        (0.3, gen.hg.SparselyBin(0.3, q())), (1.0, gen.hg.CentrallyBin([-2.0, 0.3, 0.7, 3.1], q()))):
+        hist.fill(0.1)
+        clone = pickle.loads(pickle.dumps(hist))
+        xs = np.array([rng.choice([0.22, 0.88, 0.44, 0.66, 0.3, 0.6, 0.9, -0.85, -0.65, 1.9, 0.5, float("nan")]) + rng.choice([0.0, 0.0, 1e-16, -1e-16])
+                       for _ in range(n)])
+        ws = np.array([rng.choice([1.0, 0.3, 0.7, 1.1, 2.5, 0.0]) for _ in range(n)])
+        hist.fill.numpy(xs, ws)
+        clone.fill.numpy(xs.copy(), ws.copy())
+        if clone.toJson() != hist.toJson():
+            return ("clone and original diverge under one identical vectorised fill of non-dyadic data: %s filled with %r, weights %r"
+                    % (hist.name, xs.tolist(), ws.tolist()))
     return None
 
 
